@@ -451,7 +451,7 @@ def main():
                 gsum = sum(o.get("mem_gb", 3) for o in gobs)
                 tsum = sum(o.get("mem_gb", 3) for g in groups.values() for o in g if g[0]["crate"] != "__verus__") or gsum
                 budget_gb = max(mem, 56.0 * gsum / tsum)
-                jobs = max(1, min(a.jobs, len(gobs), int(budget_gb // mem) or 1))
+                jobs = max(min(len(gobs), 2), min(a.jobs, len(gobs), int(budget_gb // mem) or 1))
                 tag = "%s.%s.%s" % (crate, fg, jc)
                 out_json = os.path.join(logdir, tag + ".json")
                 logf = os.path.join(logdir, tag + ".log")
@@ -666,10 +666,16 @@ def write_evidence(prop, tier, seed, results, wall, weave_stats, tools, errors, 
         cov["states"] = max(1, sum((x["vccs_generated"] or 0) for x in obl))
         cov["transitions"] = max(1, sum((x["checks"] or 0) for x in obl))
         cov["traces_validated_against_impl"] = 0
-    if n_complete == 0 or n_complete_ok == 0:
-        # keep the file schema-valid even for a failed run: fall back to generic keys only
-        cov["obligations"] = max(1, n_complete)
-        cov["discharged"] = max(0, n_complete_ok)
+    if level != "proof":
+        # bounded-level claims: count complete and bounded obligations together (each is labelled in obligation_details)
+        cov["obligations"] = n_complete + n_bounded
+        cov["discharged"] = n_complete_ok + n_bounded_ok
+        cov["complete_obligations"] = n_complete
+        cov["complete_discharged"] = n_complete_ok
+    if cov["obligations"] == 0:
+        # keep the file schema-valid even for a run that selected nothing
+        cov["obligations"] = 1
+        cov["discharged"] = 0
     doc = {
         "property_id": prop, "tier": tier, "seed": seed, "level": level,
         "coverage": cov,
